@@ -53,6 +53,14 @@ Proof. exact view_nested. Qed.
 Theorem C24_uniq_check_sound : forall keys, uniq_check keys = true -> pairwise_incomparable keys.
 Proof. exact uniq_check_sound. Qed.
 
+(* reflect.go over call histories: the k-th MigrateTables/OpenTables call binds its fields to the tags
+   of the k-th struct type, whatever was called before (immediate for the pinned code, which keeps no
+   state between calls; a cache keyed by the type's printed name is refuted in
+   proofs/TableView.v: migrate_cached_by_name_refuted) *)
+Theorem C24_migrate_history_independent : forall calls k,
+  nth k (migrate_history calls) [] = migrate_tables (nth k calls []).
+Proof. exact migrate_history_independent. Qed.
+
 (* incPrefix (through math/big as coded): nil exactly for empty / all-0xff prefixes, never out
    of fuel, and [p, incPrefix p) contains every key with prefix p *)
 Theorem C24_inc_prefix : forall p, wf_bytes p = true ->
@@ -132,6 +140,7 @@ Print Assumptions C24_table_write_outside.
 Print Assumptions C24_isolation.
 Print Assumptions C24_nested.
 Print Assumptions C24_uniq_check_sound.
+Print Assumptions C24_migrate_history_independent.
 Print Assumptions C24_inc_prefix.
 Print Assumptions C24_inc_prefix_nil.
 Print Assumptions C24_compact_covers.
